@@ -15,6 +15,7 @@
 package ice
 
 import (
+	"bytes"
 	"fmt"
 
 	"github.com/RoaringBitmap/roaring"
@@ -114,6 +115,13 @@ func (d *Dictionary) Iterator(a segment.Automaton,
 	if d.fst != nil {
 		rv := &DictionaryIterator{
 			d: d,
+		}
+
+		// an empty key range selects nothing; vellum would still point
+		// at a term equal to the start key without checking the end key
+		if endKeyExclusive != nil &&
+			bytes.Compare(startKeyInclusive, endKeyExclusive) >= 0 {
+			return rv
 		}
 
 		itr, err := d.fst.Search(a, startKeyInclusive, endKeyExclusive)
